@@ -69,6 +69,16 @@ def r2(ctx: Ctx) -> RuleReport:
         pm = ctx.repo.parent_map(fi.node)
         RD = None
         for n, attr in total:
+            if attr == 'get' and len(n.args) == 1 and not n.keywords:
+                # .get(key) without a default is None for a triple without markers: harmless only if the result is tested, not if it is walked
+                par = pm.get(id(n))
+                walked = (isinstance(par, (ast.For, ast.comprehension)) and par.iter is n) or \
+                    (isinstance(par, ast.Call) and isinstance(par.func, ast.Name) and par.func.id in ('list', 'tuple', 'iter', 'len', 'enumerate', 'reversed', 'sorted') and n in par.args) or \
+                    isinstance(par, ast.Subscript)
+                if walked:
+                    rep.violation(f'{fi.module.name}:{fi.qualname}: {norm(n)[:70]}', fi.loc(n), f'`{norm(n)}` is None for a triple that has no entry in epidata (any hand-built or edited graph), and the '
+                                  f'result is iterated / indexed at once: TypeError instead of "no markers"')
+                    continue
             rep.ok(f'{fi.module.name}:{fi.qualname}: {norm(n)[:70]}', fi.loc(n), f'total by construction (.{attr})')
         for n, m, k, kind in sites:
             key = f'{fi.module.name}:{fi.qualname}: {kind} {norm(m)}[{norm(k)}]'
@@ -1263,3 +1273,78 @@ def _varies_in_loop(ctx: Ctx, fi: FuncInfo, pm, store, name: str) -> bool:
                 if isinstance(n, (ast.Assign, ast.AugAssign, ast.AnnAssign)) and name in assigned_names(n):
                     return True
     return False
+
+
+# ---------------------------------------------------------------------------------------------
+@rule('R92', 'indicate_branches writes, directly in front of every triple that opens a nested node, one TOP triple from the enclosing node to the nested one')
+def r92(ctx: Ctx) -> RuleReport:
+    from ..resolve import facts_ex, expand
+    rep = RuleReport('R92', r92.title, floor=3)
+    fi = ctx.repo.func('penman.transform', 'indicate_branches')
+    cfg = CFG(fi.node)
+    pm = ctx.repo.parent_map(fi.node)
+    loops = [n for n in walk_local(fi.node) if isinstance(n, ast.For) and norm(n.iter).endswith('.triples')]
+    if len(loops) != 1 or not isinstance(loops[0].target, ast.Name):
+        rep.undecided(f'{fi.fq}: one loop `for t in g.triples`', fi.loc(), f'{len(loops)} loops')
+        return rep
+    loop = loops[0]
+    tv = loop.target.id
+    head = cfg.node_of(loop)
+    apps = [n for n in ast.walk(loop) if isinstance(n, ast.Call) and isinstance(n.func, ast.Attribute) and n.func.attr in ('append', 'insert', 'extend') and n.args]
+    outs = {norm(a.func.value) for a in apps}
+    if len(outs) != 1:
+        rep.undecided(f'{fi.fq}: one output list', fi.loc(loop), f'{sorted(outs)}')
+        return rep
+    keep = [a for a in apps if norm(a.args[-1]) == tv]
+    tops = [a for a in apps if isinstance(a.args[-1], ast.Tuple) and len(a.args[-1].elts) == 3 and norm(a.args[-1].elts[1]).endswith('.top_role')]
+    other = [a for a in apps if a not in keep and a not in tops]
+    # every triple is kept, once, at the end of what is written for it
+    key = f'{fi.fq}: every triple of the graph is written again, after its TOP triple'
+    if len(keep) != 1 or keep[0].func.attr != 'append':
+        rep.add(key, fi.loc(loop), 'violation' if keep and keep[0].func.attr == 'insert' else 'undecided',
+                f'`{norm(keep[0])[:50]}` puts the triple in front of everything written so far: the order of the triples (and with it the layout) is reversed' if keep else 'no append of the loop variable')
+    else:
+        kn = owner_node(cfg, pm, keep[0])
+        skip = cfg.path_avoiding([(head, 'T')], {head, cfg.exit}, lambda nd: nd.id == kn)
+        rep.add(key, fi.loc(keep[0]), 'violation' if skip else 'ok', 'an iteration can end without writing the triple: ' + ' -> '.join(repr(cfg.nodes[x]) for x in skip[-3:])[:150] if skip else '')
+    if other:
+        rep.undecided(f'{fi.fq}: only TOP triples and the original triples are written', fi.loc(other[0]), norm(other[0])[:60])
+    if not tops:
+        rep.undecided(f'{fi.fq}: TOP triples are written', fi.loc(loop), 'no append of (x, model.top_role, y)')
+        return rep
+    seen_dirs = set()
+    for a in tops:
+        tup = a.args[-1]
+        s0, s2 = norm(tup.elts[0]), norm(tup.elts[2])
+        fx = facts_ex(ctx, fi, a)
+        eq = None
+        for fsrc, pol in fx:
+            m_ = fsrc.replace(' ', '')
+            for k in (0, 2):
+                if pol and (m_.endswith(f'.variable=={tv}[{k}]') or m_.startswith(f'{tv}[{k}]==') and m_.endswith('.variable')):
+                    eq = k
+        key = f'{fi.fq}: `{norm(a)[:60]}` names the enclosing node first and the nested node last'
+        if a.func.attr != 'append':
+            rep.violation(key, fi.loc(a), f'`{a.func.attr}` does not put the TOP triple directly in front of the triple it belongs to')
+            continue
+        if eq is None:
+            rep.undecided(key, fi.loc(a), f'not under a test `push.variable == {tv}[0]` or `== {tv}[2]` (facts: {sorted(f for f, p in fx if p)[:3]})')
+            continue
+        seen_dirs.add(eq)
+        want = (f'{tv}[{2 - eq}]', f'{tv}[{eq}]')
+        if (s0, s2) == want:
+            rep.ok(key, fi.loc(a), f'pushed variable is {tv}[{eq}]')
+        else:
+            rep.violation(key, fi.loc(a), f'the nested node is {tv}[{eq}] here (the Push marker names it), so the TOP triple must be ({want[0]}, TOP, {want[1]}); it is ({s0}, TOP, {s2}): '
+                          f'removing the TOP triples no longer gives back the graph, and the TOP relation points the wrong way')
+        # written before the triple itself
+        if keep:
+            an, kn = owner_node(cfg, pm, a), owner_node(cfg, pm, keep[0])
+            after = kn in cfg.reachable_from([an]) and an not in cfg.reachable_from([m for m, _ in cfg.succ[kn] if m != head])
+            if not after and an in cfg.reachable_from([m for m, lab in cfg.succ[kn] if m != head]):
+                rep.violation(key + ' (position)', fi.loc(a), 'the TOP triple is written after the triple that opens the nested node')
+    for k, what in ((2, 'a nested node opened by a plain branch (Push names the target)'), (0, 'a nested node opened by an inverted branch (Push names the source)')):
+        if k not in seen_dirs:
+            rep.violation(f'{fi.fq}: a TOP triple is written for {what}', fi.loc(loop), f'no TOP triple is written under `push.variable == {tv}[{k}]`: such nested nodes get no TOP triple, so '
+                          f'"exactly one top-role triple per nested node" fails')
+    return rep
